@@ -12,10 +12,11 @@ Definition boundary_ok (g : gitem) (it : titem) : Prop :=
 
 Lemma para_check_times fr tr st rg g p : para_check fr tr st rg g p = true -> boundary_ok g (denote_item fr tr g p).
 Proof.
-  unfold para_check. intros H. repeat (apply andb_true_iff in H; destruct H as [H ?]).
+  unfold para_check. intros H. rewrite !andb_true_iff in H.
+  destruct H as [[[[[[[[[[[Hb He] Sb] Se] _] _] _] _] _] _] _] _].
   unfold boundary_ok, denote_item. cbn [ti_st ti_en]. split.
-  - eapply denotes_same_instant; [eassumption | apply texpr_denotes; assumption].
-  - eapply denotes_same_instant; [eassumption | apply texpr_denotes; assumption].
+  - eapply denotes_same_instant; [exact Sb | apply texpr_denotes; exact Hb].
+  - eapply denotes_same_instant; [exact Se | apply texpr_denotes; exact He].
 Qed.
 
 Lemma items_times fr tr st rg : forall gs ps, length ps = length gs ->
